@@ -1002,7 +1002,9 @@ func Parts(mode string) func() []mc.Part {
 				mc.ExplorePartC("deposits", New(Variant{Name: "deposits", Mode: mode, Tmpl: []string{"one"}, BindingOps: true}), 7, 9, true, rule, conf),
 				// a consumer who can pay for part of a batch only: nothing may be charged for requests that are not issued
 				// a module-owned context whose threshold is met before every provider has answered
-				mc.ExplorePart("fees-module-threshold", New(Variant{Name: "fees-module-threshold", Mode: mode, Tmpl: []string{"mod1"}}), 7, 9, true, rule),
+				// the consumer's control messages while a batch is in flight: every request still ends refunded or paid
+			mc.ExplorePart("fees-control", New(Variant{Name: "fees-control", Mode: mode, Tmpl: []string{"rep"}, ControlOps: true}), 7, 9, true, rule),
+			mc.ExplorePart("fees-module-threshold", New(Variant{Name: "fees-module-threshold", Mode: mode, Tmpl: []string{"mod1"}}), 7, 9, true, rule),
 				mc.ExplorePart("fees-partial-funds", New(Variant{Name: "fees-partial-funds", Mode: mode, Tmpl: []string{"poorpair", "poor"}}), 6, 8, true, rule),
 			}
 		}
